@@ -1,7 +1,307 @@
 """C10 — Ridge2FoldCV equals explicit two-fold cross-validated regularised least squares.
-No obligation of this property is discharged deductively yet: the cached-SVD code (closures over sliced factors, joblib, scorer objects) is outside the
-interpretable subset of pyvc; the runtime form of the contract (explicit two-fold reference) stands in, labelled bounded."""
-BOUNDED_ONLY = True
+
+Real functions: Ridge2FoldCV.__init__ / fit / _2fold_cv (with its two nested loss closures) / predict, _IdentityRegressor.predict
+(skmatter/linear_model/_ridge.py), both regularisation methods, both alpha types, every scorer, every fold assignment, every grid.
+
+Matrix layer + assumed contract of the thin SVD (np.linalg.svd(M, full_matrices=False) = SVU(M), SVS(M, .), SVVT(M), singular values non-increasing and >= 0).
+Spec (regularised least squares on the numerically non-null directions, in SVD form):
+  W(M, Y, alpha) = V_n D(alpha) U_n^T Y,  n = #{i : s_i > rcond},  Tikhonov: D = diag(s_i / (s_i^2 + alpha)),  cut-off: D = diag(1 / s_i) on the first
+  min(n, #{i : s_i > alpha}) directions;   cv_values[k] = (SCORE(X_2 W(X_1, y_1, a_k), y_2) + SCORE(X_1 W(X_2, y_2, a_k), y_1)) / 2 with a_k the (scaled) grid
+  value; alpha_ = grid value at the arg-max; coef_ = W(X, y, a_best)^T; predict = X coef_^T.
+That the Tikhonov SVD form equals (M^T M + alpha I)^-1 M^T Y on the retained directions is the standard identity (cited, not derived here)."""
+from pyvc.api import *
+from pyvc import matlayer as ML, skstubs
+from pyvc.matlayer import Mat, mul, add, sub, T, smul, Id, at, rows, cols
+from pyvc.engine import ExtNS, ExtClass, Opaque
+import ast
+
+R2 = 'skmatter.linear_model._ridge.Ridge2FoldCV'
+i_, j_ = Int('i'), Int('j')
+TIx = z3.DeclareSort('FoldIdx')
+ROWSEL = z3.Function('ROWSEL', Mat, TIx, Mat)
+SVU = z3.Function('SVU', Mat, Mat); SVVT = z3.Function('SVVT', Mat, Mat); SVS = z3.Function('SVS', Mat, IntS, RealS)
+CNT = z3.Function('CNT', Mat, RealS, IntS)                # number of singular values of M above a threshold
+ROWP = z3.Function('ROWP', Mat, IntS, Mat); COLP = z3.Function('COLP', Mat, IntS, Mat)     # first n rows / columns
+DG = z3.Function('DG', z3.ArraySort(IntS, RealS), IntS, Mat)                                # diag(f(0), ..., f(n-1))
+SCORE = z3.Function('SCORE', Mat, Mat, RealS)            # scorer(identity estimator, prediction, truth)
+EPS = z3.Real('spacing_of_one')
+NLEN = z3.Function('NLEN', TIx, IntS)
+
+def kmin(M): return If(rows(M) <= cols(M), rows(M), cols(M))
+
+def local_axioms():
+    A, B = z3.Consts('A!r B!r', Mat); n, m, i = z3.Ints('n!r m!r i!r'); t = z3.Real('t!r')
+    f, g = z3.Consts('f!r g!r', z3.ArraySort(IntS, RealS))
+    return [ForAll([A], And(rows(SVU(A)) == rows(A), cols(SVU(A)) == kmin(A), rows(SVVT(A)) == kmin(A), cols(SVVT(A)) == cols(A)), patterns=[SVU(A)]),
+            ForAll([A], And(rows(SVU(A)) == rows(A), cols(SVU(A)) == kmin(A), rows(SVVT(A)) == kmin(A), cols(SVVT(A)) == cols(A)), patterns=[SVVT(A)]),
+            ForAll([A, i], Implies(And(0 <= i, i < kmin(A)), SVS(A, i) >= 0), patterns=[SVS(A, i)]),
+            # counting over the non-increasing singular values: a threshold cuts a prefix
+            ForAll([A, t], And(0 <= CNT(A, t), CNT(A, t) <= kmin(A)), patterns=[CNT(A, t)]),
+            ForAll([A, t, i], Implies(And(0 <= i, i < kmin(A)), (i < CNT(A, t)) == (SVS(A, i) > t)), patterns=[z3.MultiPattern(CNT(A, t), SVS(A, i))]),
+            # prefixes
+            ForAll([A, n], Implies(And(0 <= n, n <= rows(A)), And(rows(ROWP(A, n)) == n, cols(ROWP(A, n)) == cols(A))), patterns=[ROWP(A, n)]),
+            ForAll([A, n], Implies(And(0 <= n, n <= cols(A)), And(cols(COLP(A, n)) == n, rows(COLP(A, n)) == rows(A))), patterns=[COLP(A, n)]),
+            ForAll([A, B, n], COLP(mul(A, B), n) == mul(A, COLP(B, n)), patterns=[COLP(mul(A, B), n)]),
+            ForAll([A, B, n], ROWP(mul(A, B), n) == mul(ROWP(A, n), B), patterns=[ROWP(mul(A, B), n)]),
+            ForAll([A, n, m], Implies(And(0 <= m, m <= n), COLP(COLP(A, n), m) == COLP(A, m)), patterns=[COLP(COLP(A, n), m)]),
+            ForAll([A, n, m], Implies(And(0 <= m, m <= n), ROWP(ROWP(A, n), m) == ROWP(A, m)), patterns=[ROWP(ROWP(A, n), m)]),
+            ForAll([A, n], T(COLP(A, n)) == ROWP(T(A), n), patterns=[T(COLP(A, n))]),
+            ForAll([A, n], T(ROWP(A, n)) == COLP(T(A), n), patterns=[T(ROWP(A, n))]),
+            ForAll([f, n], Implies(n >= 0, And(rows(DG(f, n)) == n, cols(DG(f, n)) == n)), patterns=[DG(f, n)]),
+            # product of two diagonal scalings is the scaling by the product
+            ForAll([A, f, g, n], mul(mul(A, DG(f, n)), DG(g, n)) == mul(A, DG(z3.Lambda([i], f[i] * g[i]), n)), patterns=[mul(mul(A, DG(f, n)), DG(g, n))]),
+            # a diagonal matrix depends only on the first n values
+            ForAll([f, g, n], Implies(ForAll([i], Implies(And(0 <= i, i < n), f[i] == g[i])), DG(f, n) == DG(g, n)), patterns=[z3.MultiPattern(DG(f, n), DG(g, n))])
+            ]
+
+def lam1(A1):
+    """term function of a 1-D array value"""
+    return z3.Lambda([i_], to_real(A1.elem(i_)))
+
+def getitem_hook(I, b, ix):
+    A = I.A(b)
+    if A.ndim == 2 and A.sort == RealS:
+        if isinstance(ix, ArrRef) and I.A(ix).tag and I.A(ix).tag[0] == 'fold':
+            R = ROWSEL(ML.mat_of(I, b), I.A(ix).tag[1])
+            I.assume(And(rows(R) == tz(I.A(ix).shape[0]), cols(R) == tz(A.shape[1])))
+            return ML.mk(I, R, (I.A(ix).shape[0], A.shape[1]))
+        if isinstance(ix, slice) and ix.start is None and ix.step is None and ix.stop is not None:
+            n = tz(ix.stop)
+            I.ob('index:row-prefix-within-the-matrix', And(0 <= n, n <= tz(A.shape[0])), kind='index')
+            return ML.mk(I, ROWP(ML.mat_of(I, b), n), (conc(n), A.shape[1]))
+        if isinstance(ix, tuple) and len(ix) == 2 and isinstance(ix[0], slice) and ix[0] == slice(None) and isinstance(ix[1], slice) and ix[1].start is None and ix[1].step is None and ix[1].stop is not None:
+            n = tz(ix[1].stop)
+            I.ob('index:column-prefix-within-the-matrix', And(0 <= n, n <= tz(A.shape[1])), kind='index')
+            return ML.mk(I, COLP(ML.mat_of(I, b), n), (A.shape[0], conc(n)))
+    return ML.getitem_hook(I, b, ix)
+
+def binop_hook(I, op, a, b, what):
+    """matrix * vector / matrix / vector (broadcast over the columns) = product with a diagonal matrix"""
+    if isinstance(a, ArrRef) and isinstance(b, ArrRef):
+        A, B = I.A(a), I.A(b)
+        if A.ndim == 2 and A.sort == RealS and B.ndim == 1 and op in (ast.Mult, ast.Div):
+            sd = npstubs.same_dim(A.shape[1], B.shape[0])
+            if sd is False: raise RaiseEx('ValueError')
+            if sd is None: I.ob(f'shape:{what}', tz(A.shape[1]) == tz(B.shape[0]), kind='shape')
+            f = lam1(B) if op is ast.Mult else z3.Lambda([i_], 1 / to_real(B.elem(i_)))
+            return ML.mk(I, mul(ML.mat_of(I, a), DG(f, tz(B.shape[0]))), A.shape)
+    return ML.binop_hook(I, op, a, b, what)
+
+def comp_hook(I, e, g, it, F):
+    """[f(a) for a in grid]: the values get a name (an uninterpreted function defined entry by entry) so that max / argmax contracts speak about clean terms"""
+    r = ML.comp_sym(I, e, g, it, F)
+    A = I.A(r)
+    f = I.fresh_fn('cvf', IntS, RealS)
+    I.assume(ForAll([i_], Implies(And(0 <= i_, i_ < tz(A.shape[0])), f(i_) == A.elem(i_)), patterns=[f(i_)]))
+    I.cur['cv_def'] = (f, A)
+    return I.new_arr(ArrVal(A.shape, lambda i: f(tz(i)), RealS, None, True))
+
+def svd_stub(I, M, full_matrices=True, **kw):
+    npstubs.used('np.linalg.svd (thin SVD: factors as functions of the matrix, singular values non-increasing)')
+    if full_matrices is not False: raise Unsupported("full svd")
+    Mm = ML.mat_of(I, M); m, p = I.A(M).shape
+    r = conc(z3.simplify(If(tz(m) <= tz(p), tz(m), tz(p))))
+    U = ML.mk(I, SVU(Mm), (m, r)); Vt = ML.mk(I, SVVT(Mm), (r, p))
+    S = I.new_arr(ArrVal((r,), lambda i: SVS(Mm, tz(i)), RealS, ('svs', Mm)))
+    return (U, S, Vt)
+
+def b_sum(I, it, start=0):
+    """sum(s > t) over the singular values of a matrix: the number of singular values above t"""
+    if isinstance(it, ArrRef):
+        A = I.A(it)
+        if A.tag and A.tag[0] == 'cmp' and A.tag[1] == 'Gt' and isinstance(A.tag[2], ArrRef) and I.A(A.tag[2]).tag and I.A(A.tag[2]).tag[0] == 'svs' and not isinstance(A.tag[3], ArrRef):
+            npstubs.used('sum(s > t) over non-increasing singular values (count = length of the prefix above t)')
+            return CNT(I.A(A.tag[2]).tag[1], to_real(tz(A.tag[3])))
+    return npstubs.b_sum(I, it, start)
+
+def np_max(I, a, **kw):
+    A = I.A(a) if isinstance(a, ArrRef) else None
+    if A is not None and A.tag and A.tag[0] == 'svs':
+        npstubs.used('np.max of the singular values (= the first)')
+        I.ob('pre:np.max-of-a-non-empty-array', tz(A.shape[0]) >= 1, kind='pre')
+        return SVS(A.tag[1], IntVal(0))
+    return I.cur['prev_max'](I, a, **kw)
+
+def make_scorer(I, name):
+    def scorer(I2, est, Xp, yt, **kw):
+        npstubs.used('sklearn scorer(estimator, X, y) = SCORE(estimator.predict(X), y)')
+        if not (isinstance(est, ObjRef) and I2.O(est).cls.name == '_IdentityRegressor'): raise Unsupported("scorer on a non-identity estimator")
+        pred = I2.call_func(I2.find_method(I2.O(est).cls, 'predict'), [est, Xp], {})
+        I2.cur.setdefault('score_calls', []).append((pred, yt))
+        return SCORE(ML.mat_of(I2, pred), ML.mat_of(I2, yt))
+    return scorer
+
+def extend_ext(ext):
+    ML.install(ext); skstubs.install(ext)
+    ext['mat_getitem'] = getitem_hook; ext['mat_binop'] = binop_hook
+    ext['comp_sym'] = comp_hook
+    np_ = ext['modules']['np']
+    np_.linalg.svd = svd_stub
+    np_.spacing = lambda I, v: EPS
+    prev_max = np_.max
+    def mx(I, a, **kw):
+        I.cur['prev_max'] = prev_max
+        return np_max(I, a, **kw)
+    np_.max = mx
+    prev_argmax = np_.argmax
+    def amx(I, a, **kw):
+        r = prev_argmax(I, a, **kw)
+        I.cur.setdefault('argmax', []).append((a, r))
+        return r
+    np_.argmax = amx
+    ext['builtins'] = dict(ext['builtins']); ext['builtins']['sum'] = b_sum
+    ext['builtins']['next'] = lambda I, it: next(it)
+    ext['arr_attrs'] = dict(ext['arr_attrs'])
+    ext['arr_attrs']['real'] = lambda I, a: a
+    ext['arr_attrs']['dtype'] = lambda I, a: skstubs.StubObj(kind='dtype', type=lambda I2, v: v)
+    def check_scoring(I, est, scoring=None, allow_none=False, **kw):
+        I.cur['scoring_arg'] = scoring
+        return make_scorer(I, scoring)
+    ext['names']['sklearn.metrics.check_scoring'] = check_scoring
+    def kfold(I, n_splits=5, shuffle=False, random_state=None, **kw):
+        I.cur['kfold_args'] = dict(n_splits=n_splits, shuffle=shuffle, random_state=random_state)
+        return skstubs.StubObj(kind='KFold', split=lambda I2, X, *a, **k: iter([I2.cur['folds']]))
+    kf = ExtClass('KFold'); kf.ctor = kfold
+    ext['names']['sklearn.model_selection.KFold'] = kf
+    def check_cv(I, cv, **kw):
+        I.cur['check_cv_arg'] = cv
+        return skstubs.StubObj(kind='cv', split=lambda I2, X, *a, **k: iter([I2.cur['folds']]))
+    ext['names']['sklearn.model_selection.check_cv'] = check_cv
+    par = ExtClass('Parallel'); par.ctor = lambda I, n_jobs=None, **kw: (lambda I2, gen: gen)
+    ext['names']['joblib.Parallel'] = par
+    ext['names']['joblib.delayed'] = lambda I, f: f
+    for k in ('sklearn.base.BaseEstimator', 'sklearn.base.MultiOutputMixin', 'sklearn.base.RegressorMixin'): ext['names'].setdefault(k, ExtClass(k.split('.')[-1]))
+
+def W_spec(M, Y, alpha, method):
+    """regularised least squares in SVD form on the numerically non-null directions"""
+    n = CNT(M, 2 if False else RCOND[0])
+    V, Ut = T(SVVT(M)), T(SVU(M))
+    if method == 'tikhonov':
+        D = DG(z3.Lambda([i_], SVS(M, i_) / (SVS(M, i_) * SVS(M, i_) + alpha)), n)
+        return mul(COLP(V, n), mul(D, mul(ROWP(Ut, n), Y)))
+    m = If(n <= CNT(M, alpha), n, CNT(M, alpha))
+    D = DG(z3.Lambda([i_], 1 / SVS(M, i_)), m)
+    return mul(COLP(V, m), mul(D, mul(ROWP(Ut, m), Y)))
+RCOND = [None]
+
+def u_fit(method, atype, cv_given=False):
+    def body(I):
+        n, m, p, na = I.fresh('n', IntS), I.fresh('m', IntS), I.fresh('p', IntS), I.fresh('n_alphas', IntS)
+        I.assume(And(n >= 2, m >= 1, p >= 1, na >= 1, EPS > 0))
+        I.use_axioms('entries', ML.axioms('entries') + local_axioms()); I.use_axioms('ring', ML.axioms('ring'))
+        I.cur = {}
+        X = ML.fresh_mat(I, 'X', (n, m)); Y = ML.fresh_mat(I, 'y', (n, p)); Xm, Ym = ML.mat_of(I, X), ML.mat_of(I, Y)
+        alphas = I.fresh_arr('alphas', (na,)); al = I.A(alphas).elem
+        if atype == 'relative': I.assume(ForAll([i_], Implies(And(0 <= i_, i_ < na), And(al(i_) >= 0, al(i_) < 1)), patterns=[al(i_)]))
+        else: I.assume(ForAll([i_], Implies(And(0 <= i_, i_ < na), al(i_) >= 0), patterns=[al(i_)]))
+        f1, f2 = z3.Const('fold1', TIx), z3.Const('fold2', TIx)
+        n1, n2 = I.fresh('n_fold1', IntS), I.fresh('n_fold2', IntS); I.assume(And(n1 >= 1, n2 >= 1))
+        def mkidx(t, k):
+            r = I.fresh_arr('foldidx', (k,), IntS); A = I.A(r); I.st.heap[r.id] = ArrVal(A.shape, A.elem, IntS, ('fold', t)); return r
+        I.cur['folds'] = (mkidx(f1, n1), mkidx(f2, n2))
+        cls = I.repo.get(R2)
+        shuffle = I.fresh('shuffle', BoolS); rs = I.fresh('random_state', IntS)
+        cvobj = skstubs.StubObj(kind='user-cv') if cv_given else None
+        me = I.instantiate(cls, [], dict(alphas=alphas, alpha_type=atype, regularization_method=method, cv=cvobj, scoring='r2', random_state=rs, shuffle=shuffle, n_jobs=None))
+        r = I.call_func(I.find_method(cls, 'fit'), [me, X, Y], {})
+        I.ob('post[C09]:fit-returns-self', BoolVal(isinstance(r, ObjRef) and r.id == me.id), kind='post')
+        o = I.O(me)
+        if cv_given: I.ob('post[C10]:the-given-fold-assignment-is-used', BoolVal(I.cur.get('check_cv_arg') is cvobj and 'kfold_args' not in I.cur), kind='post')
+        else:
+            ka = I.cur.get('kfold_args')
+            I.ob('post[C10]:default-folds-are-a-2-fold-split-with-the-configured-shuffle-and-seed', BoolVal(ka is not None and ka['n_splits'] == 2 and ka['shuffle'] is shuffle and ka['random_state'] is rs), kind='post')
+        I.ob('post[C10]:the-configured-scorer-is-used', BoolVal(I.cur.get('scoring_arg') == 'r2'), kind='post')
+        # ---- spec
+        mx = If(tz(n) >= tz(m), tz(n), tz(m))
+        rcond = z3.ToReal(mx) * EPS
+        RCOND[0] = rcond
+        M1, M2, Y1, Y2 = ROWSEL(Xm, f1), ROWSEL(Xm, f2), ROWSEL(Ym, f1), ROWSEL(Ym, f2)
+        smax = If(SVS(M1, 0) >= SVS(M2, 0), SVS(M1, 0), SVS(M2, 0))
+        scaled = (lambda k: al(k) * smax) if atype == 'relative' else (lambda k: al(k))
+        cv = I.A(o.attrs['cv_values_']) if isinstance(o.attrs['cv_values_'], ArrRef) else None
+        I.ob('post[C10]:one-cross-validation-value-per-grid-point', BoolVal(cv is not None and cv.ndim == 1) if cv is None else tz(cv.shape[0]) == na, kind='post')
+        k = I.fresh('k', IntS); I.assume(And(0 <= k, k < na))
+        if cv is not None:
+            a_k = scaled(k)
+            spec = (SCORE(mul(M2, W_spec(M1, Y1, a_k, method)), Y2) + SCORE(mul(M1, W_spec(M2, Y2, a_k, method)), Y1)) / 2
+            lhs1 = mul(M2, W_spec(M1, Y1, a_k, method))
+            cvd = I.cur.get('cv_def')
+            I.ob('post[C10]:cv-values-are-the-values-computed-by-the-loss-closure-in-grid-order', BoolVal(cvd is not None and len(I.cur.get('score_calls', [])) == 2), kind='post')
+            if cvd is not None: I.assume(cvd[0](k) == cvd[1].elem(k))          # instance of the definition of the named values at k
+            I.ob('post[C10]:cv-value-is-the-mean-score-of-each-fold-model-on-the-other-fold', cv.elem(k) == spec, kind='post')
+            am = I.cur.get('argmax', [])
+            I.ob('post[C10]:one-arg-max-over-the-cv-values', BoolVal(len(am) == 1 and I.A(am[0][0]) is cv), kind='post')
+            bb = tz(am[0][1]) if len(am) == 1 else IntVal(0)
+            I.ob('post[C10]:best-score-is-the-largest-cv-value', And(to_real(tz(o.attrs['best_score_'])) >= cv.elem(k), to_real(tz(o.attrs['best_score_'])) == cv.elem(bb)), kind='post')
+            I.ob('post[C10]:chosen-alpha-is-the-grid-value-with-the-best-cv-value', And(0 <= bb, bb < na, to_real(tz(o.attrs['alpha_'])) == al(bb), cv.elem(bb) >= cv.elem(k)), kind='post')
+        I.cur['spec'] = dict(M1=M1, M2=M2, Y1=Y1, Y2=Y2, scaled=scaled, al=al, na=na, Xm=Xm, Ym=Ym, cv=cv)
+        # coefficients: regularised solution on the full data at the scaled best alpha
+        C = ML.mat_of(I, o.attrs['coef_'])
+        import os
+        if os.environ.get('C10DBG'): print('COEF', C.sexpr()[:3000])
+        if cv is not None:
+            if method == 'tikhonov':
+                # proof hints (merging the two diagonal scalings of the final expression); they depend on the shape T(((V*DG)*DG) @ (U^T y)) and are skipped otherwise
+                try:
+                    a8 = C.arg(0).arg(0); a6 = a8.arg(0); L = a8.arg(1).arg(1); f2 = a8.arg(1).arg(0); f1 = a6.arg(1).arg(0); Vn = a6.arg(0)
+                    ok = C.decl().name() == 'T' and a8.arg(1).decl().name() == 'DG' and a6.arg(1).decl().name() == 'DG'
+                except Exception: ok = False
+                if ok:
+                    nn = CNT(Xm, rcond); ab_ = scaled(bb)
+                    ii = z3.Int('i!h')
+                    Lfg = z3.Lambda([ii], f1[ii] * f2[ii]); Lsp = z3.Lambda([i_], SVS(Xm, i_) / (SVS(Xm, i_) * SVS(Xm, i_) + ab_))
+                    i0 = I.fresh('i0', IntS); I.assume(And(0 <= i0, i0 < nn))
+                    x0 = SVS(Xm, i0); y0 = x0 * x0 + ab_
+                    I.assume(And(CNT(Xm, rcond) <= kmin(Xm), Implies(And(0 <= i0, i0 < kmin(Xm)), (i0 < CNT(Xm, rcond)) == (x0 > rcond))))     # instances of the counting axioms at i0
+                    for nm, h in [('retained-directions-are-those-above-rcond', L == nn),
+                                  ('two-diagonal-scalings-merge', a8 == mul(Vn, DG(Lfg, L))),
+                                  ('rcond-is-positive', rcond > 0),
+                                  ('retained-singular-value-is-above-rcond', x0 > rcond),
+                                  ('chosen-alpha-is-non-negative', ab_ >= 0),
+                                  ('retained-singular-value-is-positive', x0 > 0),
+                                  ('...and-so-is-its-square', x0 * x0 > 0)]:
+                        I.ob('step:' + nm, h, kind='lemma'); I.assume(h)
+                    sq0 = I.fresh('sq0', RealS); I.assume(sq0 == x0 * x0)                         # name for the square
+                    I.ob('step:...and-the-Tikhonov-denominator', sq0 + ab_ > 0, kind='lemma'); I.assume(sq0 + ab_ > 0)
+                    I.assume(y0 == sq0 + ab_); I.ob('step:...named-or-not', y0 > 0, kind='lemma'); I.assume(y0 > 0)                                   # y0 is sq0 + alpha by the definition of sq0
+                    I.assume(Implies(y0 > 0, x0 * (1 / y0) == x0 / y0))                         # lemma[C10] x * (1/y) = x / y for y > 0 (proved in the lemma unit), at x0, y0
+                    h = Lfg[i0] == Lsp[i0]
+                    I.ob('step:merged-scaling-is-the-Tikhonov-filter-on-every-retained-direction', h, kind='lemma')
+                    I.assume(ForAll([ii], Implies(And(0 <= ii, ii < nn), Lfg[ii] == Lsp[ii])))   # generalisation over the arbitrary retained direction i0
+                    h = DG(Lfg, L) == DG(Lsp, nn)
+                    I.ob('step:...as-diagonal-matrices', h, kind='lemma'); I.assume(h)
+            I.ob('post[C10]:coefficients-are-the-regularised-solution-on-the-full-data-for-the-chosen-(scaled)-alpha', C == T(W_spec(Xm, Ym, scaled(bb), method)), kind='post')
+        # predict
+        Xq = ML.fresh_mat(I, 'Xq', (I.fresh('nq', IntS), m))
+        P = I.call_func(I.find_method(cls, 'predict'), [me, Xq], {})
+        I.ob('post[C10]:predict-is-X-times-the-coefficients', ML.mat_of(I, P) == mul(ML.mat_of(I, Xq), T(C)), kind='post')
+    return Unit(f'Ridge2FoldCV[{method},{atype}{",cv-given" if cv_given else ""}]', body, functions=[R2 + '.fit', R2 + '._2fold_cv', R2 + '.predict', R2 + '.__init__'])
+
+def u_reject(what):
+    def body(I):
+        I.cur = {}
+        cls = I.repo.get(R2)
+        alphas = I.fresh_arr('alphas', (I.fresh('na', IntS),))
+        kw = dict(alphas=alphas)
+        if what == 'method': kw['regularization_method'] = 'lasso'
+        if what == 'alpha_type': kw['alpha_type'] = 'fraction'
+        me = I.instantiate(cls, [], kw)
+        X = ML.fresh_mat(I, 'X', (I.fresh('n', IntS), I.fresh('m', IntS))); Y = ML.fresh_mat(I, 'y', (I.A(X).shape[0], 1))
+        I.call_func(I.find_method(cls, 'fit'), [me, X, Y], {})
+        I.ob('reject[C10]:unknown-' + what + '-is-rejected', BoolVal(False), kind='post')
+    return Unit(f'Ridge2FoldCV[reject-{what}]', body, functions=[R2 + '.fit'], on_raise=lambda I, st, r: r.kind == 'ValueError')
+
+def u_lemma():
+    def body(I):
+        x, y = I.fresh('x', RealS), I.fresh('y', RealS); I.assume(y > 0)
+        I.ob('lemma[C10]:x-times-the-reciprocal-is-the-quotient', x * (1 / y) == x / y, kind='lemma')
+    return Unit('lemmas[reciprocal]', body, functions=[])
+
+UNITS = [lambda: u_lemma(), lambda: u_fit('tikhonov', 'absolute'), lambda: u_fit('tikhonov', 'relative'), lambda: u_fit('cutoff', 'absolute'), lambda: u_fit('cutoff', 'relative'),
+         lambda: u_fit('tikhonov', 'absolute', True), lambda: u_reject('method'), lambda: u_reject('alpha_type')]
 RT = True
-UNITS = []
-TRUSTED = ["reference implementation: per-fold SVD-based Tikhonov / cut-off least squares with the rank cut r = #{s > rcond}, sklearn scorers applied to (truth, prediction)"]
+TRUSTED = ["matrix layer (ring laws), prefix operators ROWP/COLP (first n rows / columns) with their product/transposition laws, diagonal scaling DG(f, n) with DG-product law",
+           "thin SVD contract: factors SVU/SVS/SVVT as functions of the matrix, singular values non-negative and non-increasing, so that sum(s > t) is the length CNT(M, t) of the prefix above t and np.max(s) = s[0]",
+           "the Tikhonov SVD form V diag(s/(s^2+alpha)) U^T y equals the ridge solution on the retained directions (cited); the sklearn scorer is SCORE(prediction, truth) of the identity estimator's prediction",
+           "KFold / check_cv yield one (fold1, fold2) pair (index sets as uninterpreted tokens: every fold assignment); joblib.Parallel evaluates the generator in order; np.spacing(1) = a positive constant",
+           "numerical effects (bounded coefficients for rank-deficient X, scorers' values): bounded runtime checks"]
